@@ -68,10 +68,21 @@ static std::vector<std::string> engine_moves_uci(const Position& e, std::vector<
     return v;
 }
 
+static bool g_in_tree = false;
+static std::string g_tree_root;
+static std::vector<std::string> g_tree_line;
+
 static mc::JObj wit(const ref::Pos& p)
 {
     mc::JObj o;
     o.s("fen", ref::fen(p));
+    if (g_in_tree)
+    {
+        // reached by play on one engine object: the path is part of the witness
+        std::string l;
+        for (auto& m : g_tree_line) l += (l.empty() ? "" : " ") + m;
+        o.s("tree_root", g_tree_root).s("tree_moves", l);
+    }
     return o;
 }
 
@@ -286,7 +297,9 @@ static void c03_tree(Position& e, const ref::Pos& p, int depth, bool last_null)
         ref::make(p, m, t);
         Move em = to_engine(m);
         MoveInfo mi = e.do_move(em);
+        g_tree_line.push_back(ref::uci(m));
         c03_tree(e, t, depth - 1, false);
+        g_tree_line.pop_back();
         e.undo_move(em, mi);
         R.count("edges");
         if (snapshot(e) != before)
@@ -637,7 +650,9 @@ static void c16_tree(Position& e, const ref::Pos& p, int depth)
         ref::make(p, m, t);
         Move em = to_engine(m);
         MoveInfo mi = e.do_move(em);
+        g_tree_line.push_back(ref::uci(m));
         c16_tree(e, t, depth - 1);
+        g_tree_line.pop_back();
         e.undo_move(em, mi);
     }
 }
@@ -1010,7 +1025,9 @@ static void prop_tree(Position& e, const ref::Pos& p, int depth)
         ref::make(p, m, t);
         Move em = to_engine(m);
         MoveInfo mi = e.do_move(em);
+        g_tree_line.push_back(ref::uci(m));
         prop_tree(e, t, depth - 1);
+        g_tree_line.pop_back();
         e.undo_move(em, mi);
         R.count("tree_edges");
     }
@@ -1025,6 +1042,9 @@ static void run_tree(const std::string& fen, int depth)
     ref::parse_fen(fen, root);
     Position e(ref::fen(root));
     g_tree_nodes = 0;
+    g_in_tree = true;
+    g_tree_root = ref::fen(root);
+    g_tree_line.clear();
     uint64_t e0 = R.counters["edges"];
     if (PROP == "C03")
         c03_tree(e, root, depth, false);
@@ -1032,6 +1052,7 @@ static void run_tree(const std::string& fen, int depth)
         c16_tree(e, root, depth);
     else
         prop_tree(e, root, depth);
+    g_in_tree = false;
     sub.states = g_tree_nodes;
     sub.transitions = R.counters["edges"] - e0 + (PROP == "C16" ? g_tree_nodes : 0) + R.counters["tree_edges"];
     sub.exhaustive = !R.out_of_time();
@@ -1097,6 +1118,45 @@ static void run_line(const std::string& fen, const std::string& moves)
         if (PROP == "C07") c07_games(e, p, hist, line, 0);
     }
     if (PROP != "C07") visit_state(p, false);
+    sub.exhaustive = true;
+    R.subspaces.push_back(sub);
+}
+
+// replay of a tree-mode witness: play the moves with real do_move on one object, then apply the
+// selected property's state check (for C03: the nested tree of depth 1 below it)
+static void run_treeline(const std::string& fen, const std::string& moves, int depth)
+{
+    mc::Subspace sub;
+    sub.name = "treeline " + fen + " moves " + moves;
+    sub.bound = "one given line, engine object reached by play";
+    ref::Pos p;
+    ref::parse_fen(fen, p);
+    Position e(ref::fen(p));
+    g_in_tree = true;
+    g_tree_root = ref::fen(p);
+    g_tree_line.clear();
+    std::istringstream is(moves);
+    std::string tok;
+    while (is >> tok)
+    {
+        std::vector<ref::Mv> legal;
+        ref::gen_legal(p, legal);
+        const ref::Mv* mv = nullptr;
+        for (auto& m : legal)
+            if (ref::uci(m) == tok) mv = &m;
+        if (!mv) exit(2);
+        ref::Pos t;
+        ref::make(p, *mv, t);
+        e.do_move(to_engine(*mv));
+        g_tree_line.push_back(tok);
+        p = t;
+        sub.transitions++;
+    }
+    if (PROP == "C03") c03_tree(e, p, depth, false);
+    else if (PROP == "C16") c16_tree(e, p, 0);
+    else prop_tree(e, p, 0);
+    g_in_tree = false;
+    sub.states = 1;
     sub.exhaustive = true;
     R.subspaces.push_back(sub);
 }
@@ -1367,6 +1427,8 @@ int main(int argc, char** argv)
             run_games(parts[1], atoi(parts[2].c_str()));
         else if (parts[0] == "lattice")
             run_lattice(parts[1]);
+        else if (parts[0] == "treeline")
+            run_treeline(parts[1], parts.size() > 2 ? parts[2] : "", parts.size() > 3 ? atoi(parts[3].c_str()) : 1);
         else if (parts[0] == "line")
             run_line(parts[1], parts.size() > 2 ? parts[2] : "");
         else if (parts[0] == "longgames")
